@@ -219,6 +219,9 @@ def near_misses(model, ds, rng, thorough):
         yield 'Conventions-removed', edit_global(ds, lambda a: a.pop('Conventions'))
         yield 'Conventions-CF-only', edit_global(ds, lambda a: a.update(Conventions='CF-1.8'))
         yield 'Conventions-compound', edit_global(ds, lambda a: a.update(Conventions=pick(rng, ['CF-1.6, UGRID-1.0', 'UGRID-1.0 CF-1.6', 'CF-1.6/UGRID-0.9', 'UGRID'])))
+        # a Conventions attribute that is a list / array of strings (a netCDF string array attribute is read back like that)
+        yield 'Conventions-as-string-list', edit_global(ds, lambda a: a.update(Conventions=pick(rng, [
+            ['CF-1.6', 'UGRID-1.0'], numpy.array(['CF-1.6', 'UGRID-1.0']), ('UGRID-1.0',), ['CF-1.8', 'UGRID-1.0', 'Deltares-0.10']])))
         yield 'cf_role-removed', edit_var_attrs(ds, 'Mesh2', lambda a: a.pop('cf_role'))
         yield 'cf_role-changed', edit_var_attrs(ds, 'Mesh2', lambda a: a.update(cf_role=pick(rng, ['mesh_topology_', 'mesh', 'face_node_connectivity'])))
         yield 'topology_dimension-removed', edit_var_attrs(ds, 'Mesh2', lambda a: a.pop('topology_dimension'))
